@@ -3,5 +3,5 @@ SPECIFICATION FairSpec
 CONSTANTS
   EmitJson = FALSE
   AllowTruncFault = FALSE
-INVARIANTS AllOrNothing SuccessComplete OnlyOutTouched ExitsCleanly RmMakesPriorIrrelevant
+INVARIANTS AllOrNothing SuccessComplete InfoTouchesNothing OnlyOutTouched ExitsCleanly RmMakesPriorIrrelevant
 PROPERTIES Terminates
